@@ -31,7 +31,7 @@ def _same(a, b):
     if a is b:
         return True            # (a NaN left in place is unchanged although NaN != NaN)
     if isinstance(a, float) and isinstance(b, float):
-        return repr(a) == repr(b)      # content: nan == nan, 0.0 != -0.0
+        return float(a).hex() == float(b).hex()      # content: nan == nan, 0.0 != -0.0; a numpy float64 IS its float value
     try:
         import numpy as np
         if isinstance(a, np.ndarray) or isinstance(b, np.ndarray):
